@@ -8,7 +8,8 @@ kind x kind x package matrix, and the property oracle on the real objects.
 The Lean model is lean/ThermoVerif/Model/Links.lean.
 """
 from __future__ import annotations
-import pickle, warnings, itertools
+import pickle
+import zlib, warnings, itertools
 from fractions import Fraction
 from harness.core import Case, ImplResult, frac, close
 
@@ -20,7 +21,9 @@ RULE = ('grid: every (target kind x source kind x package relation) cell of copy
         'of a linked stream to a third stream; then '
         'random histories (5-30 ops) of new/copy/copy(thermo=)/copy_like/copy_thermal_condition/link_with/unlink/proxy/'
         'flow_proxy/pickle and mutators (flow, T, P, phase, empty, price, characterization factor) over 2-6 '
-        'streams of 4 property packages with dyadic values; a case is non-trivial when at least one '
+        'streams of 4 property packages with dyadic values; oracle-only probes on private copies (views as operands, '
+        'Stream.copy_flow and MultiStream.copy_flow over IDs x remove x exclude x phase, constructors with mass units); '
+        'a case is non-trivial when at least one '
         'copy/link/proxy/pickle operation was executed; distinct = distinct op sequences')
 ASSUMPTIONS = [
     'Python object identity is modelled by ids of store objects (row = SparseVector.dct, Phase container, '
@@ -31,11 +34,23 @@ ASSUMPTIONS = [
     'sets, and copy_like that would change the phase set of a multi-phase stream whose flow array is shared with '
     'another indexer are outside the property (both sides answer `skip`)',
     'copy_flow is not modelled (its conservation side is C01): `copyflowprobe` (oracle only, on private copies of the two '
-    'streams, single-phase target) checks that the selected flows (IDs / exclude) arrive, the others stay, remove empties '
-    'exactly the selection in the source, phase/T/P of the target stay, and nothing is shared afterwards; '
+    'streams) checks for Stream.copy_flow(IDs, remove, exclude) and for MultiStream.copy_flow(phase, IDs, remove, exclude) '
+    '(sources: single-phase and multi-phase streams of the same chemical IDs; calls outside the documented preconditions '
+    'are not judged) that the selected cells arrive, the cells to keep stay, remove empties exactly the copied cells of '
+    'the source, phases/T/P of the target stay, nothing is shared afterwards and writes to either side stay there; '
     'IDs of unnamed streams are not observed; units= is generated with molar units only in '
-    'the correspondence (exact arithmetic), mass units and total_flow are checked by the oracle with a tolerance '
-    '(`ctorprobe`); from_streams is the last operation of a case and needs streams of one package (else `skip`)',
+    'the correspondence (exact arithmetic; including total_flow=0 and a total_flow over all-zero flows, which is '
+    'ZeroDivisionError on both sides), mass units are checked by the oracle with a tolerance '
+    '(`ctorprobe`; the mass-unit clause of ctor_units_total is not tied to the code by the correspondence); '
+    'from_streams is the last operation of a case and needs streams of one package (else `skip`)',
+    'a history ends at the first rejected call (`err=`): model and oracle say nothing about the state a rejected call '
+    'leaves behind (e.g. copy_like onto a package lacking a chemical raises after the target row was cleared)',
+    'independence is probed by WRITES, not only by identities: T, a raw flow value, imass[...] =, set_flow(kg/hr) and '
+    'ivol[...] = on one object after the mass / volume views of all objects concerned were read, then every other object '
+    'is compared; besides indexer, phase, array, rows, thermal condition and factor dict the identities include the '
+    'cache of mass / volume views (`_imol._data_cache`: may be shared only where flows, T/P and (single-phase) the phase '
+    'are all shared; never after copy / unlink / flow_proxy / a partial link) and the `equations` object (shared by a '
+    'proxy, ended by unlink); these two are oracle-only (not in the model)',
     'phase views ms[p] (`view i p`) are model objects: the dump shows, for every stream, the row object and thermal '
     'condition each handed-out view is bound to (compared with the model after every operation); the oracle also checks '
     'on the real objects that every such view is attached to its stream, except for a stream whose flows were re-bound '
@@ -43,7 +58,7 @@ ASSUMPTIONS = [
     'are not operands of the MODELLED operations; `viewops` (oracle only, on private copies) uses a view as source of '
     'pickle / proxy / flow_proxy / copy / copy_like / link_with and as target of copy_like from a stream of its phase',
     'non-stream pickles (Reaction, ParallelReaction, SeriesReaction, ReactionSystem, Chemical, Thermo incl. non-default '
-    'Gamma/PCF, CompiledChemicals) are decided by the ORACLE (observable state before/after, also across sessions); the '
+    'Gamma / Phi / PCF and a mixture with excess energies, Reaction between phases, ReactionItem, CompiledChemicals) are decided by the ORACLE (observable state before/after, also across sessions); the '
     '`pslots` protocol line only echoes the fingerprints of the original object (no independent model), `pchems` '
     'recomputes the name index from chemicals, names and groups',
     '`stream.phase = p` on a multi-phase stream gives THAT object a new single-phase indexer; for a proxy this silently '
@@ -52,11 +67,11 @@ ASSUMPTIONS = [
     'Reaction / ParallelReaction / Thermo / Chemical pickles: the adapter sends the slots read from the real object '
     'as the pickle arguments, the model rebuilds slot-wise (unset stays unset; for Chemical every slot through '
     'getattr(..., None)), the answer is compared with the slots of the really unpickled object (values by a '
-    'fingerprint: primitives by repr, model objects by type and a sample evaluation); CompiledChemicals: chemicals with '
+    'fingerprint: primitives by repr, model objects by type and sample evaluations at T, at (phase, T, P) for liquid, gas and solid, and at (T, P)); CompiledChemicals: chemicals with '
     'the names they answer to and the groups go to the model, the index of every name is compared after the round trip',
     'after every operation the oracle also checks, on the real objects, that (i) ID-keyed access (imol[ID], '
     'imol[phase, ID], imol[phase, IDs]) agrees with the raw flow data of every stream, visiting the streams in both '
-    'orders, and (ii) pairwise sharing of flow data / phase container / thermal condition is exactly what the links, '
+    'orders, and (ii) pairwise sharing of flow data / phase container / thermal condition / factor dict / equations (view cache: never more) is exactly what the links, '
     'proxies, flow proxies and unlinks of the history advertise',
     'Python pickle protocol itself is trusted; only __reduce__ / from_data / set_data are modelled; pickling of '
     'Reaction / ParallelReaction / Chemical / Thermo is checked by the oracle on the real objects (observable state '
@@ -65,8 +80,11 @@ ASSUMPTIONS = [
     'different session default package (settings.set_thermo) at dumps time — the object\'s own package, the current '
     'one, or another — and at loads time, and compared with the original (flows, phases, T, P, price, factors, '
     'package, chemical IDs, Gamma); the default is restored afterwards (oracle on the real code only)',
-    'the model has the behaviour WITH the patches fixes_proposed/C13-1 ... C13-8; on a tree without them the oracle '
+    'the model has the behaviour WITH the patches fixes_proposed/C13-1 ... C13-13 (C13-13: unlink takes a private copy '
+    'of the characterization-factor dict and of the equations object); on a tree without them the oracle '
     'reports the corresponding failures and the case ends at the failing operation',
+    'the session defaults used by the cross-session pickle probes are a function of the protocol line and the state '
+    'of the pickled object (crc32), so a failure reproduces under shrinking and --replay',
 ]
 TRUSTED = ['Lean 4.33 kernel', 'correspondence harness harness/props/c13.py + Driver/C13.lean',
            'generator reach (see histogram)', 'pickle module']
@@ -131,10 +149,19 @@ def setup():
     EXTRA['thermo'] += [thcc, tmo.Thermo(cc2)]
     # non-default activity / fugacity / Poynting models
     from thermosteam import equilibrium as eq_
+    # (the defaults are Dortmund / IdealFugacityCoefficients / MockPoyintingCorrectionFactors: none of them is used here)
     EXTRA['thermo'] += [tmo.Thermo(TH['A'].chemicals, Gamma=eq_.IdealActivityCoefficients),
-                        tmo.Thermo(TH['B'].chemicals, Gamma=eq_.IdealActivityCoefficients, PCF=eq_.MockPoyintingCorrectionFactors)
-                        if hasattr(eq_, 'MockPoyintingCorrectionFactors') else
-                        tmo.Thermo(TH['B'].chemicals, Gamma=eq_.IdealActivityCoefficients)]
+                        tmo.Thermo(TH['B'].chemicals, Gamma=eq_.IdealActivityCoefficients,
+                                   PCF=eq_.IdealGasPoyintingCorrectionFactors),
+                        tmo.Thermo(TH['A'].chemicals, Phi=eq_.SRKFugacityCoefficients,
+                                   PCF=eq_.IdealGasPoyintingCorrectionFactors),
+                        tmo.Thermo(TH['D'].chemicals, Gamma=eq_.UNIFACActivityCoefficients,
+                                   mixture=tmo.IdealMixture.from_chemicals(TH['D'].chemicals, include_excess_energies=True))]
+    # a reaction between phases, an item of a reaction set, a slice of one
+    EXTRA['rxn'].append(rxn.Reaction('Ethanol,l -> Water,g', reactant='Ethanol', X=0.375, phases='lg',
+                                     check_atomic_balance=False, check_mass_balance=False))
+    EXTRA['rxn'].append(EXTRA['prxn'][0][1])
+    EXTRA['prxn'].append(EXTRA['prxn'][0][0:2])
     tmo.settings.set_thermo(thcc)
     EXTRA['rxn'].append(rxn.Reaction('Ethanol -> H2O_x', reactant='Ethanol', X=0.5, check_atomic_balance=False,
                                      check_mass_balance=False, correct_atomic_balance=False))
@@ -184,11 +211,16 @@ def cond(s):
 def idents(s):
     """the objects that can be shared, by part"""
     im = s._imol
+    eq = getattr(s, 'equations', None)
     return {'imol': [im], 'phase': [] if is_multi(s) else [im._phase], 'array': [im.data] if is_multi(s) else [],
-            'rows': [r.dct for r in rows_of(s)], 'tc': [s._thermal_condition], 'cf': [s.characterization_factors]}
+            'rows': [r.dct for r in rows_of(s)], 'tc': [s._thermal_condition], 'cf': [s.characterization_factors],
+            'cache': [im._data_cache], 'eq': [] if eq is None else [eq]}
 
 
-def shared_parts(a, b, parts=('imol', 'phase', 'array', 'rows', 'tc', 'cf')):
+ALL_PARTS = ('imol', 'phase', 'array', 'rows', 'tc', 'cf', 'cache', 'eq')
+
+
+def shared_parts(a, b, parts=ALL_PARTS):
     ia, ib = idents(a), idents(b)
     return [p for p in parts if any(x is y for x in ia[p] for y in ib[p])]
 
@@ -257,7 +289,7 @@ class Exp:
         return self.n
 
     def new(self):
-        self.t.append({k: self.fresh() for k in ('imol', 'data', 'phase', 'tc')})
+        self.t.append({k: self.fresh() for k in ('imol', 'data', 'phase', 'tc', 'cache', 'cf', 'eq')})
 
     def renew(self, i, parts):
         for k in parts: self.t[i][k] = self.fresh()
@@ -282,14 +314,20 @@ class World:
         for i in range(len(S)):
             for j in range(i + 1, len(S)):
                 a, b = S[i], S[j]
-                real = {'data': a._imol.data is b._imol.data, 'tc': a._thermal_condition is b._thermal_condition}
+                real = {'data': a._imol.data is b._imol.data, 'tc': a._thermal_condition is b._thermal_condition,
+                        'cache': a._imol._data_cache is b._imol._data_cache,
+                        'cf': a.characterization_factors is b.characterization_factors,
+                        'eq': getattr(a, 'equations', a) is getattr(b, 'equations', b)}
                 if not is_multi(a) and not is_multi(b):
                     real['phase'] = a._imol._phase is b._imol._phase
                 for part, r in real.items():
                     want = E[i][part] == E[j][part]
+                    if part == 'cache' and not r: continue    # sharing that cache is allowed, never required
                     if r != want:
                         what = ('share their ' if r else 'do not share their ') + \
-                               {'data': 'flow data', 'tc': 'thermal condition', 'phase': 'phase'}[part]
+                               {'data': 'flow data', 'tc': 'thermal condition', 'phase': 'phase',
+                                'cache': 'cache of mass / volume flow views (imass, ivol)',
+                                'cf': 'characterization-factor dict', 'eq': 'equations object'}[part]
                         raise OracleFail(f'{op}:sharing-{part}-{"extra" if r else "missing"}',
                                          f'after `{line}` streams {i} and {j} {what}, but the links, proxies and '
                                          f'unlinks of the history say they should{" not" if r else ""}')
@@ -364,9 +402,6 @@ class World:
         return ' '.join(parts)
 
 
-_ROT = [0]
-
-
 def current_default():
     try:
         return tmo.settings.get_thermo()
@@ -374,15 +409,19 @@ def current_default():
         return getattr(tmo.settings, '_thermo', None)
 
 
-def across_sessions(own):
-    """(default package at dumps time, default package at loads time, description) for the cross-session probes"""
+def across_sessions(own, key):
+    """(default package at dumps time, default package at loads time, description) for the cross-session probes.
+    Which other packages play the session default is a function of `key` (the protocol line and the state of
+    the pickled object), not of how many pickles this process ran before: a failure reproduces under
+    shrinking and --replay."""
     others = [th for th in TH.values() if th is not own]
     cur = current_default()
-    _ROT[0] += 1
-    a, b = others[_ROT[0] % len(others)], others[(_ROT[0] + 1) % len(others)]
+    rot = zlib.crc32(key.encode())
+    a, b = others[rot % len(others)], others[(rot + 1) % len(others)]
+    odd = (rot >> 8) % 2
     return [(own, a, 'its own package was the session default, and loaded under another default'),
-            (cur if _ROT[0] % 2 else b, b if _ROT[0] % 2 else own,
-             'the session default was left as it is, and loaded under another default' if _ROT[0] % 2 else
+            (cur if odd else b, b if odd else own,
+             'the session default was left as it is, and loaded under another default' if odd else
              'another package was the session default, and loaded with its own package as default')]
 
 
@@ -433,21 +472,48 @@ def errname(e):
 
 
 def probe_independent(a, others, sig):
-    """mutate `a` (T and one flow), check that none of `others` moves, restore"""
+    """Mutate `a` and check that none of `others` moves; `a` is restored afterwards.  The writes: T; one flow
+    through the raw data; one flow through the mass view (`imass[...] =`), through `set_flow(..., 'kg/hr')` and
+    through the volume view (`ivol[...] =`) — each after the mass / volume views of ALL the objects were read, so
+    that a cache of such views kept by a copy / unlink / flow proxy writes into the wrong object."""
+    others = [o for o in others if o is not a]
     before = [cond(o) for o in others]
+    snap = [dict(r.dct) for r in rows_of(a)]
     T0 = a.T
+
+    def restore():
+        a.T = T0
+        for r, d in zip(rows_of(a), snap):
+            r.dct.clear(); r.dct.update(d)
+
+    def verdict(how):
+        after = [cond(o) for o in others]
+        restore()
+        if before != after:
+            raise OracleFail(sig, f'a change of one object ({how}) is visible in the other')
     a.T = T0 + 1.0
     rows = rows_of(a)
-    key = 0
-    old = rows[0].dct.get(key) if rows else None
-    if rows: rows[0].dct[key] = (old or 0.0) + 1.0
-    after = [cond(o) for o in others]
-    a.T = T0
-    if rows:
-        if old is None: del rows[0].dct[key]
-        else: rows[0].dct[key] = old
-    if before != after:
-        raise OracleFail(sig, 'a change of temperature / flow of one object is visible in the other')
+    if rows: rows[0].dct[0] = rows[0].dct.get(0, 0.0) + 1.0
+    verdict('T and a raw flow value')
+    if not rows: return
+    ID = a.chemicals.IDs[0]
+    key = (phases_of(a)[0], ID) if is_multi(a) else ID
+    for o in others + [a]: o.imass
+    a.imass[key] = float(a.imass[key]) + 1.0
+    verdict('a flow written through imass')
+    for o in others + [a]: o.imass
+    a.set_flow(float(a.imass[key]) + 2.0, 'kg/hr', key)
+    verdict("a flow written by set_flow(..., 'kg/hr')")
+    try:
+        for o in others + [a]: o.ivol
+        v = float(a.ivol[key])
+        a.ivol[key] = v + 0.5
+    except OracleFail:
+        raise
+    except Exception:
+        restore()       # no volume model for this chemical / phase: nothing written
+        return
+    verdict('a flow written through ivol')
 
 
 def apply(W: World, line: str):
@@ -507,17 +573,35 @@ def apply(W: World, line: str):
         cf_given = dict(cfd) if cfd is not None else {}
         phs = phases.split(',')
         per = [] if flows == '-' else [parse_pairs(x) for x in flows.split(';')]
-        if kind == 'S':
-            kw = {ID_OF[c]: fl(v) for c, v in (per[0] if per else [])}
-            s = tmo.Stream(ID, phase=phs[0], T=fl(T), P=fl(P), price=fl(price), thermo=th,
-                           characterization_factors=cfd, units=units, total_flow=total, **kw)
-        else:
-            sphs = sorted(set(phs))
-            kw = {p: [(ID_OF[c], fl(v)) for c, v in per[k]] for k, p in enumerate(sphs) if k < len(per) and per[k]}
-            s = tmo.MultiStream(ID, phases=tuple(phs), T=fl(T), P=fl(P), price=fl(price), thermo=th,
-                                characterization_factors=cfd, units=units, total_flow=total, **kw)
-        S.append(s)
         tag = 'S' if kind == 'S' else 'M'
+        # the flows given (molar units: exact): value * (total / sum of the given values) / factor of the unit
+        given = [dict(x) for x in per] + [{}] * 8
+        tot_given = sum((sum(d.values(), Fraction(0)) for d in given), Fraction(0))
+        # the constructor rescales to total_flow when it is given and not 0 (a Stream with units also for 0);
+        # with nothing to rescale (all given flows 0) that is a division by zero
+        rescales = total is not None and (total != 0 or (units is not None and kind == 'S'))
+        in_pkg = all(c in PKGS[pkg_name(pkg)] for d in given for c in d)
+        try:
+            if kind == 'S':
+                kw = {ID_OF[c]: fl(v) for c, v in (per[0] if per else [])}
+                s = tmo.Stream(ID, phase=phs[0], T=fl(T), P=fl(P), price=fl(price), thermo=th,
+                               characterization_factors=cfd, units=units, total_flow=total, **kw)
+            else:
+                sphs = sorted(set(phs))
+                kw = {p: [(ID_OF[c], fl(v)) for c, v in per[k]] for k, p in enumerate(sphs) if k < len(per) and per[k]}
+                s = tmo.MultiStream(ID, phases=tuple(phs), T=fl(T), P=fl(P), price=fl(price), thermo=th,
+                                    characterization_factors=cfd, units=units, total_flow=total, **kw)
+        except ZeroDivisionError as e:
+            if rescales and tot_given == 0 and in_pkg:
+                W.tags.append(f'new/{tag}:total-of-nothing')
+                return 'err=ZeroDivisionError'
+            raise OracleFail(f'new/{tag}:raises-ZeroDivisionError', f'constructor given {per} units={units} '
+                                                                    f'total_flow={total} raised {e!r}')
+        if rescales and tot_given == 0:
+            raise OracleFail(f'new/{tag}:total-of-nothing-accepted',
+                             f'constructor given total_flow={total} and no non-zero flow returned a stream '
+                             f'(total {s.F_mol}) instead of raising')
+        S.append(s)
         if s.price != fl(price): raise OracleFail(f'new/{tag}:price', f'price given {fl(price)} stored {s.price}')
         got = {k: v for k, v in s.characterization_factors.items()}
         if got != cf_given:
@@ -525,13 +609,10 @@ def apply(W: World, line: str):
                                               f'stream holds {got}')
         if (s.T, s.P) != (fl(T), fl(P)): raise OracleFail(f'new/{tag}:TP', 'T/P given at construction not stored')
         if sid_of(s) != (None if sid == '-' else int(sid)): raise OracleFail(f'new/{tag}:ID', 'ID not stored')
-        # the flows given (molar units: exact): value * (total / sum of the given values) / factor of the unit
-        given = [dict(x) for x in per] + [{}] * 8
-        tot_given = sum((sum(d.values(), Fraction(0)) for d in given), Fraction(0))
         scale = Fraction(1)
-        if total is not None and (total or units) and tot_given: scale = Fraction(total) / tot_given
+        if rescales: scale = Fraction(total) / tot_given
         if 'u' not in extras or extras['u'][0] == 'k':
-            want = tuple(tuple(sorted((c, v * scale / factor) for c, v in given[k].items() if v)) for k in range(len(phases_of(s))))
+            want = tuple(tuple(sorted((c, v * scale / factor) for c, v in given[k].items() if v * scale)) for k in range(len(phases_of(s))))
             got = tuple(tuple(sorted((c, Fraction(v)) for c, v in row_dict(s, r).items())) for r in rows_of(s))
             if got != want:
                 raise OracleFail(f'new/{tag}:flows' + ('-units' if units else '') + ('-total' if total is not None else ''),
@@ -550,7 +631,7 @@ def apply(W: World, line: str):
         S[int(t[1])].P = fl(t[2])
     elif op == 'setphase':
         S[int(t[1])].phase = t[2]
-        if was_multi[0]: E.renew(int(t[1]), ('imol', 'data', 'phase'))
+        if was_multi[0]: E.renew(int(t[1]), ('imol', 'data', 'phase', 'cache'))
     elif op == 'empty':
         S[int(t[1])].empty()
     elif op == 'setprice':
@@ -676,7 +757,7 @@ def apply(W: World, line: str):
                 raise OracleFail(f'copylike/{cell}:stale', f'target phase {p} keeps {d} that the source does not have')
         if not aliased and full(sr) != src_before:
             raise OracleFail(f'copylike/{cell}:source-changed', 'copy_like changed its source')
-        if was_single and is_multi(tg): E.renew(int(t[1]), ('imol', 'data', 'phase'))
+        if was_single and is_multi(tg): E.renew(int(t[1]), ('imol', 'data', 'phase', 'cache'))
 
     elif op == 'copytc':
         tg, sr = S[int(t[1])], S[int(t[2])]
@@ -710,6 +791,11 @@ def apply(W: World, line: str):
         if full(sr) != src_before: raise OracleFail(f'link/{k}:source-changed', 'link_with changed the other stream')
         ti, si = int(t[1]), int(t[2])
         if f: W.view_excluded.update(u for u in E.followers(ti) if u != ti)
+        # the cache of mass / volume views is only valid for both streams when flows, T/P and (single-phase) the
+        # phase are all shared; otherwise the linked stream must start a cache of its own
+        if ti != si or not (tp and f and (p or is_multi(tg))):
+            cache = E.t[si]['cache'] if tp and f and (p or is_multi(tg)) else E.fresh()
+            for u in E.followers(ti): E.t[u]['cache'] = cache
         if tp: E.t[ti]['tc'] = E.t[si]['tc']
         if f:
             for u in E.followers(ti): E.t[u]['data'] = E.t[si]['data']
@@ -728,11 +814,11 @@ def apply(W: World, line: str):
             raise OracleFail(f'unlink/{k}:values', 'unlink changed flows, phases, T or P of a stream')
         for j, y in enumerate(S):
             if y is s: continue
-            sh = shared_parts(s, y, ('imol', 'phase', 'array', 'rows', 'tc'))
+            sh = shared_parts(s, y)
             if sh:
                 raise OracleFail(f'unlink/{k}:still-shared-{sh[0]}', f'after unlink the stream still shares {sh} with stream {j}')
         probe_independent(s, [y for y in S if y is not s], f'unlink/{k}:not-independent')
-        E.renew(int(t[1]), ('imol', 'data', 'phase', 'tc'))
+        E.renew(int(t[1]), ('imol', 'data', 'phase', 'tc', 'cache', 'cf', 'eq'))
 
     elif op in ('proxy', 'flowproxy'):
         s = S[int(t[1])]
@@ -744,8 +830,9 @@ def apply(W: World, line: str):
             raise OracleFail(f'{op}/{k}:raises-{type(e).__name__}', f'{op} raised {e!r}')
         if cond(c) != cond(s): raise OracleFail(f'{op}/{k}:not-equal', f'{op} has {cond(c)}, original {cond(s)}')
         if full(s) != before: raise OracleFail(f'{op}/{k}:source-changed', f'{op} changed the original')
-        sh = shared_parts(c, s, ('rows', 'phase', 'tc'))
+        sh = shared_parts(c, s, ('rows', 'phase', 'tc', 'cache'))
         want = {'rows': True, 'phase': op == 'proxy' and not is_multi(s), 'tc': op == 'proxy'}
+        if op == 'flowproxy': want['cache'] = False     # (a full proxy MAY share the cache of mass / volume views)
         for q, wnt in want.items():
             if wnt and q not in sh: raise OracleFail(f'{op}/{k}:not-shared-{q}', f'{op} does not share {q}')
             if not wnt and q in sh: raise OracleFail(f'{op}/{k}:extra-{q}', f'{op} shares {q}')
@@ -780,7 +867,7 @@ def apply(W: World, line: str):
             f = full(x)
             return (f[0], f[1], f[2], f[4], tuple(x.chemicals.IDs), type(x.thermo.Gamma).__name__ if not isinstance(x.thermo.Gamma, type) else x.thermo.Gamma.__name__)
         ref = seen(s)
-        for at_dump, at_load, why in across_sessions(s.thermo):
+        for at_dump, at_load, why in across_sessions(s.thermo, line + repr(before)):
             W.tags.append('pickle:default-swapped')
             try:
                 got = seen(with_defaults(at_dump, at_load, s))
@@ -822,6 +909,7 @@ def apply(W: World, line: str):
         i, ph, j = int(t[1]), t[2], int(t[3])
         if i >= len(S) or j >= len(S) or not is_multi(S[i]) or ph not in phases_of(S[i]): return None
         ms = S[i].copy(); v = ms[ph]; src = S[j]
+        world_before = [full(y) for y in S]
         W.tags.append('viewops')
         k = phases_of(ms).index(ph)
         vrow = lambda: row_dict(ms, ms._imol.data.rows[k])
@@ -886,14 +974,20 @@ def apply(W: World, line: str):
                 attempt('link', lambda: y.link_with(v, flow=fl_, phase=False, TP=tp_))
                 if (y._imol.data.dct is v._imol.data.dct) != fl_ or (y._thermal_condition is ms._thermal_condition) != tp_:
                     raise OracleFail(f'viewops:link-{int(fl_)}{int(tp_)}', 'link_with(view) does not share exactly the selected parts')
-        if full(S[i]) != full(S[i]): pass
+        if [full(y) for y in S] != world_before:
+            raise OracleFail('viewops:source-changed', 'operations on private copies (and their phase views) changed a stream of the history')
         return None
     elif op == 'copyflowprobe':
         # copy_flow on private copies of the two streams: selected flows equal, nothing shared, remove / exclude honoured
         ti, si, ids_tok, rm, ex = int(t[1]), int(t[2]), t[3], t[4] == '1', t[5] == '1'
         if ti >= len(S) or si >= len(S): return None
+        world_before = [full(y) for y in S]
         tt, ss = S[ti].copy(), S[si].copy()
-        if is_multi(tt): return None       # MultiStream.copy_flow has another signature (phase, IDs): see C01
+        if is_multi(tt):
+            copyflow_multi(W, tt, ss, ids_tok, rm, ex, t[6] if len(t) > 6 else '-')
+            if [full(y) for y in S] != world_before:
+                raise OracleFail('copyflowprobe/M:source-changed', 'copy_flow between private copies changed a stream of the history')
+            return None
         W.tags.append('copyflowprobe')
         src_tot = {}
         for r in rows_of(ss):
@@ -937,6 +1031,9 @@ def apply(W: World, line: str):
         if shared_parts(tt, ss, ('rows', 'array', 'tc', 'phase')):
             raise OracleFail('copyflowprobe:shares', 'after copy_flow target and source share data')
         probe_independent(tt, [ss], 'copyflowprobe:not-independent')
+        probe_independent(ss, [tt], 'copyflowprobe:not-independent')
+        if [full(y) for y in S] != world_before:
+            raise OracleFail('copyflowprobe:source-changed', 'copy_flow between private copies changed a stream of the history')
         return None
     elif op == 'ctorprobe':
         # oracle-only: mass units and total_flow in the constructors (inexact arithmetic: tolerance), object discarded
@@ -973,7 +1070,7 @@ def apply(W: World, line: str):
         if kind in ('rxn', 'prxn', 'srxn', 'rsys', 'thermo', 'chem'):
             W.tags.append('pickleobj:default-swapped')
             own = TH['C'] if kind in ('rxn', 'prxn', 'srxn', 'rsys') else TH['A']
-            for at_dump, at_load, why in across_sessions(own)[:1]:
+            for at_dump, at_load, why in across_sessions(own, line)[:1]:
                 try:
                     c2 = with_defaults(at_dump, at_load, obj)
                     st2 = obj_state(kind, c2)
@@ -1002,6 +1099,60 @@ def apply(W: World, line: str):
     return finish()
 
 
+def copyflow_multi(W, tt, ss, ids_tok, rm, ex, ph_tok):
+    """`MultiStream.copy_flow(other, phase, IDs, remove=, exclude=)` on private copies `tt` (multi-phase target) and
+    `ss`: the cells (phase, chemical) it copies equal the source's, the cells it must keep are kept, `remove`
+    empties exactly the copied cells of the source, nothing is shared afterwards."""
+    tph = phases_of(tt)
+    if ph_tok != '-' and ph_tok not in tph: return
+    sph = phases_of(ss)
+    pk = pkg_of(tt)
+    if ids_tok == '-':
+        IDs, named = ..., list(pk)
+    else:
+        named = [int(x) for x in ids_tok.split(',')]
+        if any(c not in pk for c in named): return          # lookup error, not our subject
+        IDs = tuple(ID_OF[c] for c in named) if len(named) > 1 else ID_OF[named[0]]
+    src_multi = is_multi(ss)
+    # preconditions of the method: same chemical IDs; a multi-phase source has the same phases, a single-phase
+    # source a phase the target has
+    outside = tuple(tt.chemicals.IDs) != tuple(ss.chemicals.IDs) or (sph != tph if src_multi else sph[0] not in tph)
+    cells = lambda x: {(p, c): v for p, r in zip(phases_of(x), rows_of(x)) for c, v in row_dict(x, r).items()}
+    t0, s0 = cells(tt), cells(ss)
+    tcond = (tph, tt.T, tt.P)
+    sel = {(p, c) for p in (tph if ph_tok == '-' else (ph_tok,)) for c in named}
+    src_cells = {(p, c) for p in sph for c in pk}
+    copied = (src_cells - sel) if ex else (sel & src_cells)
+    what = f'copy_flow(phase={ph_tok}, IDs={IDs}, remove={rm}, exclude={ex}) onto phases {tph} from phases {sph}'
+    try:
+        tt.copy_flow(ss, ... if ph_tok == '-' else ph_tok, IDs, remove=rm, exclude=ex)
+    except Exception as e:
+        if outside: return
+        raise OracleFail(f'copyflowprobe/M:raises-{type(e).__name__}', f'{what} raised {e!r}')
+    if outside: return
+    W.tags.append('copyflowprobe/M' + ('<-M' if src_multi else '<-S'))
+    t1, s1 = cells(tt), cells(ss)
+    for cell in set(t0) | set(t1) | set(s0) | copied:
+        if cell in copied:
+            if t1.get(cell, 0.) != s0.get(cell, 0.):
+                raise OracleFail('copyflowprobe/M:selected', f'{what}: cell {cell} target {t1.get(cell, 0.)}, source {s0.get(cell, 0.)}')
+        elif ex or src_multi:
+            if t1.get(cell, 0.) != t0.get(cell, 0.):
+                raise OracleFail('copyflowprobe/M:unselected', f'{what}: cell {cell} is not copied but changed {t0.get(cell, 0.)} -> {t1.get(cell, 0.)}')
+        elif t1.get(cell, 0.) not in (0., t0.get(cell, 0.)):
+            raise OracleFail('copyflowprobe/M:unselected', f'{what}: cell {cell} is not copied but became {t1.get(cell, 0.)}')
+    for cell in set(s0) | set(s1):
+        wantv = 0. if (rm and cell in copied) else s0.get(cell, 0.)
+        if s1.get(cell, 0.) != wantv:
+            raise OracleFail('copyflowprobe/M:source' + ('-remove' if rm else ''), f'{what}: source cell {cell} {s1.get(cell, 0.)}, expected {wantv}')
+    if (phases_of(tt), tt.T, tt.P) != tcond:
+        raise OracleFail('copyflowprobe/M:conditions', f'{what} changed phases, T or P of the target')
+    sh = shared_parts(tt, ss)
+    if sh: raise OracleFail(f'copyflowprobe/M:shares-{sh[0]}', f'after {what} target and source share {sh}')
+    probe_independent(tt, [ss], 'copyflowprobe/M:not-independent')
+    probe_independent(ss, [tt], 'copyflowprobe/M:not-independent')
+
+
 _UNSET = object()
 
 
@@ -1020,12 +1171,15 @@ def fingerprint(v):
     if hasattr(v, 'dct') and hasattr(v, 'size'): return f'sparse{sorted(v.dct.items())}/{v.size}'
     if hasattr(v, 'rows'): return 'sparsearray(' + ','.join(fingerprint(r) for r in v.rows) + ')'
     out = type(v).__name__
+    if hasattr(v, 'include_excess_energies'): out += f'(excess={v.include_excess_energies})'
     if callable(v):
-        for args in ((300.,), ('l', 300., 101325.), (300., 101325.)):
+        # sample evaluations: a T-dependent model, a phase handle in each phase (liquid, gas, solid), a T,P model;
+        # an argument list the object does not take shows as the name of the exception (the same on both sides)
+        for args in ((300.,), ('l', 300., 101325.), ('g', 400., 101325.), ('s', 250., 101325.), (300., 101325.)):
             try:
-                out += '=' + repr(v(*args)); break
-            except Exception:
-                continue
+                out += '|' + repr(v(*args))
+            except Exception as e:
+                out += '|!' + type(e).__name__
     return out
 
 
@@ -1086,8 +1240,9 @@ def cchems_lines(obj, c):
 def obj_state(kind, o):
     """observable state of a reaction / chemical / property package"""
     if kind == 'rxn':
+        import numpy as np
         return {'stoichiometry': tuple(sorted((o.chemicals.CASs[i], v) for i, v in o._stoichiometry.dct.items())) if hasattr(o._stoichiometry, 'dct')
-                else tuple(o._stoichiometry), 'reactant': o.reactant, 'X': o.X, 'basis': o.basis, 'phases': getattr(o, 'phases', None),
+                else repr(np.asarray(o._stoichiometry).tolist()), 'reactant': o.reactant, 'X': o.X, 'basis': o.basis, 'phases': getattr(o, 'phases', None),
                 'chemicals': tuple(o.chemicals.CASs), 'repr': repr(o)}
     if kind == 'rsys':
         return {'n': len(o._reactions), 'members': tuple(obj_state('prxn' if hasattr(r, 'reactants') else 'rxn', r)['repr']
@@ -1103,8 +1258,9 @@ def obj_state(kind, o):
             try: d[name] = getattr(o, name)(*args)
             except Exception as e: d[name] = type(e).__name__
         for name in ('V', 'Cn', 'mu', 'kappa'):
-            try: d[name] = getattr(o, name)('l', 330., 101325.)
-            except Exception as e: d[name] = type(e).__name__
+            for ph_, T_ in (('l', 330.), ('g', 420.), ('s', 240.)):
+                try: d[name + '.' + ph_] = getattr(o, name)(ph_, T_, 101325.)
+                except Exception as e: d[name + '.' + ph_] = type(e).__name__
         for name in ('H', 'S'):
             try: d[name] = getattr(o, name)('g', 350., 101325.)
             except Exception as e: d[name] = type(e).__name__
@@ -1115,7 +1271,9 @@ def obj_state(kind, o):
                 'Phi': type(o.Phi).__name__ if not isinstance(o.Phi, type) else o.Phi.__name__,
                 'PCF': type(o.PCF).__name__ if not isinstance(o.PCF, type) else o.PCF.__name__,
                 'mixture': type(o.mixture).__name__,
-                'H': o.mixture.H('l', [1.] * len(o.chemicals.CASs), 320., 101325.)}
+                'excess': getattr(o.mixture, 'include_excess_energies', None),
+                'H': o.mixture.H('l', [1.] * len(o.chemicals.CASs), 320., 101325.),
+                'H.g': o.mixture.H('g', [1.] * len(o.chemicals.CASs), 400., 101325.)}
     raise ValueError(kind)
 
 
@@ -1236,16 +1394,22 @@ def gen_new_units(rng, kind=None, pkg=None, sid=None):
     phs = rng.choice(SINGLE_PHASES) if kind == 'S' else rng.choice(['g,l', 'l,s', 'g,l,s', 'L,g'])
     nph = len(phs.split(','))
     specs, total = [], Fraction(0)
+    nothing = rng.random() < 0.12        # a total of nothing: all given flows 0 (or none given)
     for _ in range(nph):
         chosen = rng.sample(ids, rng.randrange(1, len(ids) + 1))
-        vals = [(c, unit_val * rng.randrange(1, 40)) for c in chosen]
+        vals = [(c, Fraction(0) if nothing else unit_val * rng.randrange(1, 40)) for c in chosen]
         total += sum(v for _, v in vals)
         specs.append(','.join(f'{c}:{tok(v)}' for c, v in vals))
+    flows = ';'.join(specs)
+    if nothing and rng.random() < 0.4: flows = '-'
     extras = []
     if factor is not None: extras.append(f'u:k:{factor}')
-    if with_total: extras.append(f't:{tok(total * rng.choice([Fraction(1, 2), 1, 2, 4]))}')
+    if nothing:
+        extras.append(f't:{tok(dy(rng, 1, 8)) if rng.random() < 0.75 else 0}')
+    elif with_total:
+        extras.append(f't:{tok(total * rng.choice([Fraction(1, 2), 1, 2, 4])) if rng.random() < 0.9 else 0}')
     sidt = '-' if sid is None else str(sid)
-    return f'new {kind} {sidt} {pkg_tok(pkg)} {phs} {";".join(specs)} {T} {P} 0 - ' + ' '.join(extras)
+    return f'new {kind} {sidt} {pkg_tok(pkg)} {phs} {flows} {T} {P} 0 - ' + ' '.join(extras)
 
 
 def restrict_common(line, rng):
@@ -1358,7 +1522,12 @@ def gen_history(rng, length):
             else:
                 a, b = rng.randrange(n), rng.randrange(n)
                 ids = rng.choice(['-', '-', '1', '3', '1,3', '2', '1,2,3'])
-                do(f'copyflowprobe {a} {b} {ids} {rng.randrange(2)} {rng.randrange(2)}')
+                pht = '-'
+                if a < len(S) and is_multi(S[a]):
+                    same = [j for j in range(n) if j < len(S) and S[j].chemicals is S[a].chemicals]
+                    if same and rng.random() < 0.8: b = rng.choice(same)
+                    if rng.random() < 0.5: pht = rng.choice(phases_of(S[a]))
+                do(f'copyflowprobe {a} {b} {ids} {rng.randrange(2)} {rng.randrange(2)} {pht}')
         elif rng.random() < 0.7:
             multi = [j for j, x in enumerate(S) if is_multi(x)]
             if multi:
@@ -1423,6 +1592,13 @@ def grid_cases(rng):
                 a = gen_new(rng, tk, tpkg, tp, 1); b = gen_new(rng, sk, spkg, sp, 2)
                 ops = [a, b] + [f'copyflowprobe 0 1 {ids} {rm} {ex}' for ids in ('-', '1', '1,3', '2') for rm in '01' for ex in '01']
                 out.append(Case(ops, {'tags': ['grid:copyflow']}))
+    for tp in ('g,l', 'g,l,s'):
+        for sk, sp in (('S', 'l'), ('S', 'g'), ('S', 's'), ('M', 'g,l'), ('M', 'g,l,s'), ('M', 'l,s')):
+            for tpkg, spkg in (('A', 'A'), ('C', 'C'), ('A', 'D')):
+                a = gen_new(rng, 'M', tpkg, tp, 1); b = gen_new(rng, sk, spkg, sp, 2)
+                ops = [a, b] + [f'copyflowprobe 0 1 {ids} {rm} {ex} {ph}' for ids in ('-', '1', '1,3') for rm in '01'
+                                for ex in '01' for ph in ('-', 'l', 'g')]
+                out.append(Case(ops, {'tags': ['grid:copyflow/M']}))
     # constructors with units= / total_flow=; from_streams
     for kind in 'SM':
         for pkg in 'ABCD':
